@@ -49,6 +49,24 @@ CHECKS = {
             "Trusted: Lean kernel, hand-written OpSpec (anchored by 185 golden TEAL files), Avm grammar and semantics, translate.py. Five "
             "known findings (indices over 255, name newline, AssetCreator below v5, itxn_field fields not settable).",
             "DESIGN.md Part II C04"),
+    "C05": ("proof",
+            "Lean 4: verified abstract interpreter `StackCheck` (certificate: abstract type stack per pc, routine summaries) run on the real TEAL of every explored program; soundness theorems over Avm.step (no underflow, no pop below the routine base, no frame misuse, type errors only where an operand is `any`), per-opcode signature lemmas against execPrim",
+            "stackcheck_sound / run_sound / no_any_no_type_error hold for every accepted certificate, all contexts and run lengths; the checker "
+            "decides per program ALL control-flow paths; it is run on the real output of generated programs (all versions, modes, options, "
+            "subroutines, recursion, routers, ABI subroutines, multi-values) and all golden TEAL files.",
+            "Trusted: Lean kernel, Avm semantics, field type table regenerated from the live enums (CtxOK hypothesis), signatures of the "
+            "uncovered opcodes (divmodw, ledger look-ups returning bytes, itxn reads: programs using them are reported covered=false). "
+            "Two known findings (control in operand position, optimiser dead stores).",
+            "DESIGN.md Part II C05"),
+    "C11": ("proof",
+            "Lean 4 proof: session state machine of PyTeal's process-global state (session_inv and compile_history_independent for all histories; renaming invariance of slot assignment on the C10 model) checked against the real API after every operation; multi-process differential execution across hash seeds and prior histories",
+            "The logic (counters, frame-pointer marker, declaration caches, relative-order dependence of slot/label numbering) is proved on "
+            "the model and the model is compared with the real interpreter state after every API operation; hash-seed / fresh-process "
+            "behaviour, which no Lean model exhibits, is decided by running the same target after different histories in separate "
+            "interpreters (labelled exploration in the evidence).",
+            "Trusted: Lean kernel, model = code (tied per operation), C10 slot model. One known finding (second Router.compile_program "
+            "below v8 has slot-id ties whose numbering depends on set order; programs equal modulo slot renaming); one defect repaired.",
+            "DESIGN.md Part II C11"),
     "C08": ("proof",
             "Lean 4 proof: the model of the router's dispatch conditions equals a specification written from the property text for every configuration and call (induction over the method list); full call matrix executed on the real approval/clear TEAL of generated routers",
             "router_dispatch_code / router_dispatch_partial / router_dispatch_fails_iff are universal over configurations; real Router objects "
